@@ -88,7 +88,15 @@ class Ring:
             if rn is not None and rd is not None and (rn, rd) != (1, 1):
                 inner = arg * (F(1) / content)
                 return self.sqrt(inner) * F(rn, rd)
-        # perfect square monomial: sqrt(x**2k) is NOT simplified (sign)
+        # perfect square monomial of atoms declared positive: sqrt(x**2k) = x**k
+        pos = getattr(self, 'positive', None)
+        if pos and len(arg.t) == 1:
+            (m, c), = arg.t.items()
+            if c > 0 and m and all(a in pos and e % 2 == 0 for a, e in m):
+                rn, rd = _isqrt(c.numerator), _isqrt(c.denominator)
+                if rn is not None and rd is not None:
+                    return Poly({tuple((a, e // 2) for a, e in m): F(rn, rd)}, self)
+        # otherwise a perfect square monomial is NOT simplified (sign)
         name = 'sqrt(%s)' % arg.key()
         self.square[name] = arg
         self.real.setdefault(name, all(self.real.get(a, True) for a in arg.atoms()) and 'I' not in arg.atoms())
